@@ -69,6 +69,7 @@ type Contracts struct {
 	SharedTypes []string
 	OwnedTypes  []string
 	gspec       *GuardSpec
+	Kinds       *KindSpec
 	Atomic      map[string]bool
 	Immutable   map[string]bool
 	Consts      map[string]*CExpr
@@ -97,7 +98,7 @@ type ConfinedDecl struct {
 }
 
 var topKeywords = map[string]bool{
-	"confined": true, "shared": true, "owned": true,
+	"confined": true, "shared": true, "owned": true, "kind": true, "kindfunc": true, "kindok": true,
 	"func": true, "pred": true, "spec": true, "lemma": true, "callback": true, "ghost": true,
 	"guard": true, "atomic": true, "immutable": true, "const": true, "end": true, "axiom": true,
 	"monitor": true, "constructor": true,
@@ -284,6 +285,34 @@ func loadContractsInto(c *Contracts, path string) (*Contracts, error) {
 				return nil, fail("confined Func[,Func] : Struct.field ...")
 			}
 			c.Confined = append(c.Confined, ConfinedDecl{Funcs: strings.Split(strings.TrimSpace(rest[:k]), ","), Fields: strings.Fields(rest[k+1:])})
+			cur = nil
+		case "kind", "kindfunc", "kindok":
+			if c.Kinds == nil {
+				c.Kinds = &KindSpec{Field: map[string]kindT{}, Local: map[string]kindT{}, Result: map[string]kindT{}, Exempt: map[string]bool{}}
+			}
+			f := strings.Fields(rest)
+			switch first {
+			case "kindok":
+				for _, n := range f {
+					c.Kinds.Exempt[n] = true
+				}
+			case "kindfunc":
+				if len(f) != 2 || parseKindName(f[1]) == kNone {
+					return nil, fail("kindfunc <func> seq|clock")
+				}
+				c.Kinds.Result[f[0]] = parseKindName(f[1])
+			default:
+				if len(f) < 2 || parseKindName(f[0]) == kNone {
+					return nil, fail("kind seq|clock <Struct.field | local:Func.var> ...")
+				}
+				for _, n := range f[1:] {
+					if strings.HasPrefix(n, "local:") {
+						c.Kinds.Local[strings.TrimPrefix(n, "local:")] = parseKindName(f[0])
+					} else {
+						c.Kinds.Field[n] = parseKindName(f[0])
+					}
+				}
+			}
 			cur = nil
 		case "shared":
 			c.SharedTypes = append(c.SharedTypes, strings.Fields(rest)...)
